@@ -14,6 +14,14 @@ CLAIMED = {
    text="Theorems for every stage count n>=1, width, init value, edge polarity and every schedule of input-clock edges, output-clock edges, coincident edges and input changes: ff_latency / ff_initial_until_stages / ff_change_visible_at_stages (FFSynchronizer is an n-sample delay line in output edges), async_assert_immediate / async_release_after_stages (AsyncFFSynchronizer, ResetSynchronizer), pulse_single_cycle / pulse_conservation / pulse_never_spurious / pulse_loss_without_spacing (PulseSynchronizer: exactly one high output cycle per input pulse iff an output edge separates consecutive pulses; the hypothesis is proved necessary). The register-by-register model is tied to lib/cdc.py by replaying every transition of the enumerated reachable model graphs, and random schedules, on the real primitives with hand-driven clocks.",
    note="Trusted: Lean kernel + standard axioms, Lean compiler for the driver, the harness. Input changes coincident with a clock edge (a physical race) are not in the schedules; domain resets of the wrapper domains are never asserted; platform overrides are not exercised.",
    ref="DESIGN.md §6 C17"),
+ "C10": dict(cat="proof", tech="Lean 4 theorems (minimality/uniqueness by arithmetic on powers of two) + exhaustive small-domain correspondence against Shape.cast / Const / Signal init",
+   text="21 theorems for all integers, ranges, enumerations and constant trees: ceil_log2_spec, bits_for_spec (least width), range_contains / range_minimal / range_signed / range_empty_zero / range_narrowest (castRange is the unique narrowest shape of the range's elements and equals a brute-force search), enum_spec, const_norm (unique representative modulo 2^w inside the shape), const_cast_eval (Const.cast of Const/Cat/Slice trees equals evaluation), init_wrap / init_range / init_memory. The model (castRange, castEnum, constNorm written with Python's bit operators, constCast, initValue) is tied to /repo by exhaustive enumeration: all ranges with start, stop in [-40,40], step in [-9,9], rings around powers of two up to 2^70, all enums of <=3 members from a 15-value pool in three enum flavours, all (v, shape) with |v|<=300, w<=9, bits_for on [-1100,1100] and around 2^k up to 2^200, signal and memory initial values.",
+   note="Trusted: Lean kernel + standard axioms, Lean compiler for the driver, the harness. ShapeCastable shapes (layouts, shaped enums) are C15's. F15 (len(range) overflow for ranges of >= 2^63 elements) was found by this check and repaired.",
+   ref="DESIGN.md §6 C10"),
+ "C12": dict(cat="proof", tech="Lean 4 refinement proof (invariant + abstraction to a bounded List queue, induction over all input sequences) + full reachable-graph and random-walk correspondence against the simulated FIFOs",
+   text="27 theorems for every width, depth (0, 1, powers of two and non-powers) and every input sequence: the register-level models of SyncFIFO and SyncFIFOBuffered (produce/consume/level with _incr's wrap, storage, the buffered variant's inner FIFO, output register and r_rdy register, depth-0/1 special cases) refine a bounded List queue (sync_refines, buffered_refines; Inv holds initially and is preserved), outputs are exactly the queue's view (r_rdy iff non-empty, r_data = head, w_rdy iff length < depth / implies, level = r_level = w_level = length), pushed = popped ++ held (order, no loss, no duplication), liveness (w_rdy with >=1 / >=2 free slots; oldest entry readable now or next cycle). A Spec monitor with the property's eight clauses judges observed traces of the real FIFOs; the model is tied by the complete reachable state graph of the implementation for depth <= 4, width <= 1 (thorough: more) and by long random walks over depths {0..33} and widths {0,1,4,9}.",
+   note="Trusted: Lean kernel + standard axioms, Lean compiler for the driver, the harness. Reset is held de-asserted (reset behaviour is C03). The graph stream locates registers by signal name.",
+   ref="DESIGN.md §6 C12"),
 }
 
 NOT_APPLICABLE = {
